@@ -1,0 +1,7 @@
+//go:build !verif
+
+package dastard
+
+// verifPoint marks a named synchronisation point for the out-of-tree verification harness.
+// In the normal build it is an empty function that the compiler inlines away.
+func verifPoint(string) {}
